@@ -34,7 +34,7 @@ from . import c01_rw as rw
 
 NAME0, NUM0 = "x", "0"
 _SIMPLE_OPS = {"(", ")", "[", "]", "{", "}", ",", ":", ".", ";", "=", "+"}
-_RANK = {ch: i for i, ch in enumerate("xabcdefghijklmnopqrstuvwyz'\uff58 ")}
+_RANK = {ch: i for i, ch in enumerate("xabcdefghijklmnopqrstuvwyz'\uff58 \u20ac")}
 
 
 def size_key(text):
@@ -341,6 +341,10 @@ def text_candidates(text, mode):
             for w in (2, 1):
                 for i in range(b0 + nq, len(t.string) - nq - w + 1):
                     yield text[:s] + t.string[:i] + t.string[i + w :] + text[e:]
+            for i in range(b0 + nq, len(t.string) - nq):
+                ch = t.string[i]
+                if (ch.isalnum() or ord(ch) > 127) and ch != "x" and t.string[i - 1] != "\\":
+                    yield text[:s] + t.string[:i] + "x" + t.string[i + 1 :] + text[e:]
         elif t.type == T.FSTRING_START:
             fstack.append(t)
         elif t.type == T.FSTRING_END and fstack:
@@ -353,6 +357,12 @@ def text_candidates(text, mode):
             for w in (2, 1):
                 for i in range(s1, s - w + 1):
                     yield text[:i] + text[i + w :]
+            for i in range(s1, s):
+                ch = text[i]
+                if (ch.isalnum() or ord(ch) > 127) and ch != "x" and text[i - 1] != "\\":
+                    yield text[:i] + "x" + text[i + 1 :]
+                    if ord(ch) > 127 and ch != "\u20ac":
+                        yield text[:i] + "\u20ac" + text[i + 1 :]  # simplest non-ASCII non-letter
         elif t.type == T.FSTRING_MIDDLE and t.string:
             yield text[:s] + text[e:]
             yield text[:s] + "x" + text[e:]
